@@ -145,6 +145,25 @@ Proof.
     constructor. now apply IH.
 Qed.
 
+(* completeness of the executable scheduler: every interleaving is the trace of some schedule, so the
+   schedules the correspondence draws range over exactly the executions the property quantifies over *)
+Lemma pop_nth_at {X} (pre : list (list X)) x w post :
+  pop_nth (length pre) (pre ++ (x :: w) :: post) = Some (x, pre ++ w :: post).
+Proof.
+  induction pre as [|p pre IH]; simpl; [reflexivity|]. now rewrite IH.
+Qed.
+
+Theorem run_schedule_complete {X} : forall (ws : list (list X)) tr,
+  interleaving ws tr -> exists sched, run_schedule sched ws = Some tr /\ length sched = length tr.
+Proof.
+  intros ws tr H. induction H as [ws Hall | pre x w post tr _ [sched [IH Hlen]]].
+  - exists []. split; [|reflexivity]. simpl.
+    replace (forallb _ ws) with true; [reflexivity|]. symmetry. apply forallb_forall.
+    intros w Hw. rewrite Forall_forall in Hall. now rewrite (Hall w Hw).
+  - exists (length pre :: sched). split; [|simpl; now rewrite Hlen].
+    simpl. rewrite pop_nth_at, IH. reflexivity.
+Qed.
+
 (* ---------- writes to distinct slots commute ---------- *)
 Section Sched.
 Variable V : Type.
